@@ -40,3 +40,51 @@ Definition call_threshold (k : Z) (hapx : bool) (ts : list Q) (rows : list thr_r
 
 (* the default argument of do_call *)
 Definition default_thresholds : list Q := call_thresholds.
+
+(* ------------------------------------------------------------------------------------
+   Literal transcription of the per-row body of absolute_threshold (the loop is outside
+   the function-body translator; its statements are pinned in tools/genspecs/c01.py):
+
+       if np.isnan(row.log2): absolutes[idx] = ref_copies; continue
+       cnum = 0
+       for cnum, thresh in enumerate(thresholds):
+           if row.log2 <= thresh:
+               if ref_copies != ploidy:
+                   cnum = int(cnum * ref_copies / ploidy)
+               break
+       else:
+           cnum = int(np.ceil(_log2_ratio_to_absolute_pure(row.log2, ref_copies)))
+       absolutes[idx] = cnum
+
+   `fdiv a b` stands for Python's float quotient a / b of two ints (an oracle: the
+   correctly rounded double); int() truncates toward zero.  Proofs/CallScan.v shows that
+   this walk equals thr_cn (first_le / scale_cn) above. *)
+
+(* enumerate(thresholds), counting from i *)
+Fixpoint enumerate_from (i : Z) (ts : list Q) : list (Z * Q) :=
+  match ts with
+  | [] => []
+  | t :: rest => (i, t) :: enumerate_from (i + 1) rest
+  end.
+
+(* Python int() of a float: truncation toward zero *)
+Definition trunc_Q (q : Q) : Z := if Qle_bool 0 q then Qfloor q else Qceiling q.
+
+(* the for / else walk over (cnum, thresh) pairs *)
+Fixpoint scan_loop (fdiv : Z -> Z -> Q) (v e : Q) (k r : Z) (pairs : list (Z * Q)) : Z :=
+  match pairs with
+  | [] => trunc_Q (inject_Z (Qceiling (abs_pure e r)))                      (* else: *)
+  | (cnum, thresh) :: rest =>
+      if Qle_bool v thresh then
+        (if negb (r =? k) then trunc_Q (fdiv (cnum * r) k) else cnum)        (* break *)
+      else scan_loop fdiv v e k r rest
+  end.
+
+Definition scan_row (fdiv : Z -> Z -> Q) (v : option Q) (e : Q) (ts : list Q) (k r : Z) : Z :=
+  match v with
+  | None => r
+  | Some v => scan_loop fdiv v e k r (enumerate_from 0 ts)
+  end.
+
+(* the exact quotient, the reading used by scale_cn *)
+Definition exact_div (a b : Z) : Q := Qred (inject_Z a / inject_Z b).
